@@ -155,4 +155,84 @@ theorem noUpper_sdnPre : NoUpper sdnPre := by
 
 theorem lower_length (s : Str) : (lower s).length = s.length := by simp [lower]
 
+/-! ### the `_sdn_N_` suffix -/
+
+theorem sdnPreRev_reverse : sdnPreRev.reverse = sdnPre := by decide
+
+/-- digit strings -/
+def Digits (ds : Str) : Prop := ds ≠ [] ∧ ∀ c ∈ ds, c.isDigit = true
+
+theorem mem_takeWhile_imp {p : Char → Bool} {a : Char} {l : Str} (h : a ∈ l.takeWhile p) : p a = true := by
+  induction l with
+  | nil => simp at h
+  | cons x xs ih =>
+    rw [List.takeWhile_cons] at h
+    split at h
+    · rename_i hx
+      rcases List.mem_cons.mp h with rfl | h'
+      · exact hx
+      · exact ih h'
+    · simp at h
+
+theorem sdnDigits_some {s ds : Str} (h : sdnDigits s = some ds) :
+    Digits ds ∧ ∃ base, s = base ++ sdnPre ++ ds ++ ['_'] := by
+  unfold sdnDigits at h
+  split at h
+  · rename_i r hr
+    simp only at h
+    have hdig : ∀ c ∈ List.takeWhile Char.isDigit r, c.isDigit = true := fun c hc => mem_takeWhile_imp hc
+    have hsplit := List.takeWhile_append_dropWhile (p := Char.isDigit) (l := r)
+    generalize List.takeWhile Char.isDigit r = t at *
+    generalize List.dropWhile Char.isDigit r = d at *
+    subst hsplit
+    split at h
+    · rename_i hc
+      obtain ⟨hne, hpre⟩ := hc
+      simp only [Option.some.injEq] at h
+      subst h
+      rw [List.isPrefixOf_iff_prefix] at hpre
+      obtain ⟨rest, hrest⟩ := hpre
+      subst hrest
+      refine ⟨⟨by simpa using hne, ?_⟩, rest.reverse, ?_⟩
+      · intro c hc
+        rw [List.mem_reverse] at hc
+        exact hdig c hc
+      · have h1 : s = (s.reverse).reverse := by simp
+        rw [h1, hr]
+        simp [sdnPreRev_reverse]
+    · cases h
+  · cases h
+
+theorem sdnDigits_append {ds : Str} (hd : Digits ds) (base : Str) :
+    sdnDigits (base ++ sdnPre ++ ds ++ ['_']) = some ds := by
+  obtain ⟨hne, hdig⟩ := hd
+  have hrev : (base ++ sdnPre ++ ds ++ ['_']).reverse = '_' :: (ds.reverse ++ (sdnPreRev ++ base.reverse)) := by
+    simp [← sdnPreRev_reverse]
+  unfold sdnDigits
+  rw [hrev]
+  have hall : ∀ a ∈ ds.reverse, Char.isDigit a = true := by
+    intro a ha; exact hdig a (List.mem_reverse.mp ha)
+  have ht : List.takeWhile Char.isDigit (ds.reverse ++ (sdnPreRev ++ base.reverse)) = ds.reverse := by
+    rw [List.takeWhile_append_of_pos hall]
+    simp [sdnPreRev]
+  have hdw : List.dropWhile Char.isDigit (ds.reverse ++ (sdnPreRev ++ base.reverse)) = sdnPreRev ++ base.reverse := by
+    rw [List.dropWhile_append_of_pos hall]
+    simp [sdnPreRev]
+  simp only [ht, hdw]
+  rw [if_pos]
+  · simp
+  · refine ⟨by simpa using hne, ?_⟩
+    rw [List.isPrefixOf_iff_prefix]
+    exact List.prefix_append _ _
+
+theorem sdnDigits_none_of_getLast {s : Str} {c : Char} (hc : c ≠ '_') :
+    sdnDigits (s ++ [c]) = none := by
+  unfold sdnDigits
+  simp only [List.reverse_append, List.reverse_cons, List.reverse_nil, List.nil_append, List.cons_append]
+  split
+  · rename_i r hr
+    simp only [List.cons.injEq] at hr
+    exact absurd hr.1 hc
+  · rfl
+
 end Spydr.Names
